@@ -214,7 +214,7 @@ def run(pid, tier, seed, rundir, model_run):
                 ccnames = []
                 history_txt = []
                 tmt = 1_600_000_000
-                for op in hops:
+                for opi, op in enumerate(hops):
                     tmt += 1
                     mt = (tmt * 7919) % 2_000_000_000 if run_variant == "mtime" else None
                     if op[0] == "write":
@@ -227,7 +227,9 @@ def run(pid, tier, seed, rundir, model_run):
                         h.delete("A", op[1]); h.delete("B", op[1]); history_txt.append(f"delete A,B {op[1]}")
                     elif op[0] == "editcc":
                         if ccnames:
-                            nm = ccnames[rng.below(len(ccnames))] if hkind == "random" else ccnames[-1]
+                            # the choice is a function of the history position, NOT of the generator state: the same history replayed
+                            # under a variant (mtime / swap) must perform the same edits
+                            nm = ccnames[(hi * 31 + opi * 7) % len(ccnames)] if hkind == "random" else ccnames[-1]
                             h.write(op[1], nm, op[2], mt); history_txt.append(f"write {op[1]} {nm} {op[2][:8]!r}")
                     elif op[0] == "recreate":
                         if op[2] in h.T_bytes:
@@ -264,7 +266,7 @@ def run(pid, tier, seed, rundir, model_run):
                         if (trusted is None) != safe:
                             res["broken"].append(f"{pid}/corr/archive-trust: harness predicted trusted={trusted is not None} but banner says safe={safe} (history {history_txt})")
                         # new conflict-copy names (fed back as edit targets)
-                        for p in set(da2) | set(db2):
+                        for p in sorted(set(da2) | set(db2)):     # sorted: the replay of a history under a variant must edit the same copy
                             if ".conflict-" in p and p not in ccnames:
                                 ccnames.append(p)
                         # ---------------- oracles
